@@ -34,7 +34,10 @@ class RawTok(Model):
         return RawTok(("copy", self.origin), self.shape)
 
     def _bin(self, op, o):
-        return RawTok((op, self.origin, getattr(o, "origin", o)), self.shape)
+        oo = getattr(o, "origin", o)
+        if op in "*/" and oo == 1.0:
+            return self
+        return RawTok((op, self.origin, oo), self.shape)
 
     def __mul__(self, o):
         return self._bin("*", o)
@@ -257,9 +260,18 @@ def units_factory(arg):
     return UnitTok(arg)
 
 
+def tok_origin(x):
+    """origin of any model value (interpreted objects: class name + origins of their attributes)"""
+    if hasattr(x, "origin"):
+        return x.origin
+    if isinstance(x, PyObj):
+        return ("obj", x._cls.name, tuple(sorted((k, tok_origin(v)) for k, v in x._attrs.items() if hasattr(v, "origin") or isinstance(v, PyObj))))
+    return x
+
+
 def core_hooks(extra_ext=None):
     ext = {
-        "numpy.argsort": lambda a, *r, **k: ArrTok(("argsort", a.origin), "dimensionless", a.shape, ""),
+        "numpy.argsort": lambda a, *r, **k: ArrTok(("argsort", tok_origin(a)), "dimensionless", getattr(a, "shape", (3,)), ""),
         "numpy.sum": lambda xs, *a, **k: sum(xs),
         "numpy.any": lambda x, *a, **k: x,
         "numpy.sqrt": lambda x, *a, **k: RawTok(("sqrt", x.origin), x.shape) if isinstance(x, RawTok) else x,
